@@ -177,6 +177,35 @@ var lazyVal = sync.OnceValue(func() int {
 // Lazy uses sync.OnceValue.
 func Lazy() int { return lazyVal() }
 
+func poolWorker(id int, jobs <-chan int, results chan<- int, wg *sync.WaitGroup) {
+	defer wg.Done()
+	for j := range jobs {
+		results <- j*j + id*0
+	}
+}
+
+// WorkerPool is the classic idiom with `go worker(...)` on a named function.
+func WorkerPool(n int) int {
+	jobs := make(chan int, n)
+	results := make(chan int, n)
+	var wg sync.WaitGroup
+	for w := 0; w < 3; w++ {
+		wg.Add(1)
+		go poolWorker(w, jobs, results, &wg)
+	}
+	for i := 1; i <= n; i++ {
+		jobs <- i
+	}
+	close(jobs)
+	wg.Wait()
+	close(results)
+	s := 0
+	for r := range results {
+		s += r
+	}
+	return s
+}
+
 // SelectMerge merges two producers with select until both channels are closed.
 func SelectMerge(n int) int {
 	a, b := make(chan int), make(chan int)
